@@ -19,6 +19,8 @@ one canonical shape before any rule looks at it (line numbers are kept for repor
       once, in the statement that immediately follows (a simple statement, or the test of an `if` / the iterable of a
       `for`, never inside a lambda or nested function), is substituted into that statement: `h = a * b; x = f(h)` is
       read as `x = f(a * b)` -- hoisting an argument into a temporary never changes what a rule sees
+  K8  `if c: x = a  else: x = b` (each branch exactly one plain assignment to the same name; not an `elif` arm of a dispatch
+      chain, values not themselves conditional) is read as `x = a if c else b`
 """
 from __future__ import annotations
 
@@ -249,8 +251,37 @@ class InlineTemps(ast.NodeTransformer):
                     i += 1
 
 
+class IfToIfExp(ast.NodeTransformer):
+    """K8 (see module docstring)."""
+
+    def visit_If(self, n, is_elif=False):
+        def block(stmts):
+            out = []
+            for st in stmts:
+                r = self.visit(st)
+                if isinstance(r, list):
+                    out.extend(r)
+                elif r is not None:
+                    out.append(r)
+            return out
+        n.body = block(n.body)
+        if len(n.orelse) == 1 and isinstance(n.orelse[0], ast.If):
+            n.orelse = [self.visit_If(n.orelse[0], True)]  # an `elif` arm: part of a dispatch chain, left as a statement
+        else:
+            n.orelse = block(n.orelse)
+        if not is_elif and len(n.body) == 1 and len(n.orelse) == 1:
+            a, b = n.body[0], n.orelse[0]
+            if (isinstance(a, ast.Assign) and isinstance(b, ast.Assign) and len(a.targets) == 1 and len(b.targets) == 1
+                    and isinstance(a.targets[0], ast.Name) and isinstance(b.targets[0], ast.Name) and a.targets[0].id == b.targets[0].id
+                    and not isinstance(a.value, ast.IfExp) and not isinstance(b.value, ast.IfExp)):
+                new = ast.Assign(targets=[a.targets[0]], value=ast.copy_location(ast.IfExp(test=n.test, body=a.value, orelse=b.value), n))
+                return ast.copy_location(new, n)
+        return n
+
+
 def canonicalise(tree: ast.Module) -> ast.Module:
     tree = DropNoops().visit(tree)
+    tree = IfToIfExp().visit(tree)
     tree = InlineTemps().visit(tree)
     tree = Canon().visit(tree)
     ast.fix_missing_locations(tree)
